@@ -2049,6 +2049,26 @@ static void fam_c17_misuse(G& g, Plan& p) {
     P.ops.push_back(mk(OP_verify_all));
     return;
   }
+  if (g.chance(0.1)) {
+    // stale span: a page of several slices is released while its segment lives on, a one-slice page of a fresh size class is carved from the
+    // start of that span, and the link of one of its freed blocks is forged so that it decodes to an address in the slices behind the page
+    // (whose bookkeeping still remembers the old page): still not "the same area"
+    p.nslots = 40; p.progs.resize(1); p.cfg.spurious_p = 0; Program& P = p.progs[0];
+    auto bs = bin_sizes();
+    P.ops.push_back(mk(OP_malloc, 0, 100 + g.below(400)));                                   // keeps the segment alive
+    int rounds = 1 + (int)g.below(3);
+    for (int r = 0; r < rounds; r++) {
+      P.ops.push_back(mk(OP_malloc, 1, g.chance(0.7) ? 20000 + g.below(100000) : 200 * KiB + g.below(800 * KiB)));   // medium page (8 slices) or a large one
+      P.ops.push_back(mk(OP_free, 1));
+      if (g.chance(0.3)) P.ops.push_back(mk(OP_collect, -1, g.below(2)));
+      size_t b = bs[10 + 3 * r + g.below(3)]; size_t req = g.padded ? b - 8 : b;              // a class not used before in this plan
+      int k = 2 + (int)g.below(4);
+      for (int i = 0; i < k; i++) P.ops.push_back(mk(OP_malloc, 10 + 8 * r + i, req));
+      P.ops.push_back(mk(OP_corrupt_free_link, 10 + 8 * r + (int)g.below((uint64_t)k - 1), 3 * g.below(300000)));      // a multiple of 3: aimed
+    }
+    P.ops.push_back(mk(OP_verify_all));
+    return;
+  }
   int nt = g.chance(0.35) ? 2 : 1;
   p.nslots = 200; p.progs.resize((size_t)nt);
   p.cfg.spurious_p = 0;
